@@ -6,7 +6,6 @@ import (
 	"fmt"
 	"runtime"
 	"sync"
-	"sync/atomic"
 	"testing"
 
 	"github.com/paulsonkoly/chess-3/board"
@@ -83,6 +82,50 @@ func same(a, b srch.Result, allowTrailingAbort bool) string {
 	return ""
 }
 
+// Two worker goroutines run the paired searches and GOMAXPROCS loader goroutines produce scheduling and GC
+// pressure while a case asks for it. They live for the whole process: under the race detector every new
+// goroutine costs memory that is not given back, and a long run used to exhaust the machine.
+var (
+	poolOnce sync.Once
+	jobs     = make(chan func())
+	loadMu   sync.Mutex
+	loadCond = sync.NewCond(&loadMu)
+	loadOn   bool
+)
+
+func setLoad(on bool) {
+	loadMu.Lock()
+	loadOn = on
+	loadMu.Unlock()
+	loadCond.Broadcast()
+}
+
+func startPool() {
+	for i := 0; i < 2; i++ {
+		go func() {
+			for f := range jobs {
+				f()
+			}
+		}()
+	}
+	for i := 0; i < runtime.GOMAXPROCS(0); i++ {
+		go func() {
+			var sink [][]byte
+			for n := 0; ; n++ {
+				if n%64 == 0 {
+					loadMu.Lock()
+					for !loadOn {
+						loadCond.Wait()
+					}
+					loadMu.Unlock()
+					sink = append(sink[:0], make([]byte, 1<<12))
+					runtime.Gosched()
+				}
+			}
+		}()
+	}
+}
+
 func mkBoard(c Case) (*board.Board, refchess.Pos, error) {
 	p, err := refchess.ParseFEN(c.FEN)
 	if err != nil {
@@ -134,26 +177,12 @@ func checkCase(c Case, rec *evid.Rec) (err error) {
 	sB := search.New(c.TT)
 	bX, _, _ := mkBoard(c)
 
-	// machine load while A and A' run concurrently
-	var stop atomic.Bool
-	var lw sync.WaitGroup
+	// machine load while A and A' run concurrently (persistent goroutines: see pool below)
+	poolOnce.Do(startPool)
 	if c.Load {
-		for i := 0; i < runtime.GOMAXPROCS(0); i++ {
-			lw.Add(1)
-			go func() {
-				defer lw.Done()
-				var sink [][]byte
-				for n := 0; !stop.Load(); n++ {
-					if n%64 == 0 {
-						sink = append(sink[:0], make([]byte, 1<<12))
-						runtime.Gosched()
-					}
-				}
-				_ = sink
-			}()
-		}
+		setLoad(true)
+		defer setLoad(false)
 	}
-	defer func() { stop.Store(true); lw.Wait() }()
 
 	for i, st := range c.Steps {
 		if len(p.Legal()) == 0 || p.Half >= 100 {
@@ -168,8 +197,8 @@ func checkCase(c Case, rec *evid.Rec) (err error) {
 			}
 			return srch.Run(s, b, false, o...)
 		}
-		go func() { defer wg.Done(); rA = run(sA, bA, opts(st)) }()
-		go func() { defer wg.Done(); rA2 = run(sA2, bA2, opts(st)) }()
+		jobs <- func() { defer wg.Done(); rA = run(sA, bA, opts(st)) }
+		jobs <- func() { defer wg.Done(); rA2 = run(sA2, bA2, opts(st)) }
 		wg.Wait()
 		where := fmt.Sprintf("move %d (%+v) of the game from %s after %v, table %d", i, st, c.FEN, c.Moves, c.TT)
 		if st.Hard >= 0 && (rA.Nodes > st.Hard || rA2.Nodes > st.Hard) {
